@@ -53,10 +53,25 @@ func primaryEnc(b bpv7.Bundle) []byte {
 // transmitted and is dropped from the store.
 func H06_Forward() {
 	var log []sendRec
-	c, peers := coreWithPeers("epidemic", 0, 1, &log)
+	// one routing algorithm per configuration entry: what is handed to the
+	// convergence layer is the same faithful copy; binary spray updates the block it owns
+	algos := []string{"epidemic", "binary_spray", "dtlsr", "prophet"}
+	algo := algos[verif.Param("algo", 0)]
+	c, peers := coreWithPeers(algo, 8, 1, &log)
 	defer c.Close()
 	p1 := peers[0]
 	p2 := newMockCLA("peer2", &log)
+	farNode := bpv7.MustNewEndpointID("dtn://far/inbox")
+	switch r := c.routing.(type) {
+	case *DTLSR:
+		r.dataMutex.Lock()
+		r.routingTable[farNode] = p2.peer // the link-state graph says: peer 2 is the next hop for the destination
+		r.dataMutex.Unlock()
+	case *Prophet:
+		r.dataMutex.Lock()
+		r.peerPredictabilities[p2.peer] = map[bpv7.EndpointID]float64{farNode: 0.5}
+		r.dataMutex.Unlock()
+	}
 	withHop, withAge, withUnknown := verif.Bool("hop"), verif.Bool("age"), verif.Bool("unknown")
 	hopCount, hopLimit := verif.U8("hc"), verif.U8("hl")
 	verif.Assume(hopCount <= hopLimit)
@@ -76,12 +91,15 @@ func H06_Forward() {
 	if withUnknown {
 		bl = bl.Canonical(bpv7.NewGenericExtensionBlock([]byte{9, 9}, 222), bpv7.RemoveBlock)
 	}
+	if algo == "binary_spray" {
+		bl = bl.Canonical(bpv7.NewBinarySprayBlock(8))
+	}
 	b, err := bl.Build()
 	verif.Assume(err == nil)
 	origPrimary, origPayload := primaryEnc(b), append([]byte{}, payloadBytes(b)...)
 	tRecv := time.Now()
 	inject(p1, b)
-	verif.Assert(len(log) == 0, "the bundle is not sent back to the peer it came from")
+	verif.Assert(len(copiesOf(log, b)) == 0, "the bundle is not sent back to the peer it came from")
 	if residence > 0 {
 		time.Sleep(time.Duration(residence) * time.Millisecond)
 	}
@@ -93,18 +111,19 @@ func H06_Forward() {
 	refusedHop := withHop && uint16(hopCount)+1 > uint16(hopLimit)
 	expiredByAge := withAge && age0+residence >= 3600000
 	if refusedHop || expiredByAge {
-		verif.Assert(len(log) == 0, "a bundle over its hop limit or lifetime is never transmitted")
+		verif.Assert(len(copiesOf(log, b)) == 0, "a bundle over its hop limit or lifetime is never transmitted")
 		verif.Assert(!c.store.KnowsBundle(b.ID()), "and is dropped from the store")
 		verif.Reach("refused")
 		return
 	}
 	if failFirst {
-		verif.Assert(len(log) == 1 && !log[0].ok, "first attempt made and failed")
+		verif.Assert(len(copiesOf(log, b)) == 1 && !copiesOf(log, b)[0].ok, "first attempt made and failed")
 		p2.fail = false
 		time.Sleep(10*time.Second + time.Millisecond) // pending-retry tick
 	}
-	verif.Assert(len(log) >= 1 && log[len(log)-1].ok && log[len(log)-1].peer == p2.addr, "the bundle is transmitted to the new peer")
-	sent := log[len(log)-1].b
+	dl := copiesOf(log, b) // the routing algorithm's own metadata bundles are not the subject here
+	verif.Assert(len(dl) >= 1 && dl[len(dl)-1].ok && dl[len(dl)-1].peer == p2.addr, "the bundle is transmitted to the new peer")
+	sent := dl[len(dl)-1].b
 	verif.Assert(bytes.Equal(primaryEnc(sent), origPrimary), "primary block byte-identical to what was accepted")
 	verif.Assert(bytes.Equal(payloadBytes(sent), origPayload), "payload byte-identical to what was accepted")
 	if withHop {
@@ -119,13 +138,27 @@ func H06_Forward() {
 		ab, aerr := sent.ExtensionBlock(bpv7.ExtBlockTypeBundleAgeBlock)
 		verif.Assert(aerr == nil, "age block still present")
 		got := ab.Value.(*bpv7.BundleAgeBlock).Age()
-		stay := uint64(log[len(log)-1].at.Sub(tRecv) / time.Millisecond)
+		stay := uint64(dl[len(dl)-1].at.Sub(tRecv) / time.Millisecond)
 		verif.Observe("age", got, stay)
 		verif.Assert(got+2 >= age0+stay && got <= age0+stay+2 && stay >= residence, "the bundle age grew by the residence time in milliseconds")
 	}
 	_, uerr := sent.ExtensionBlock(222)
 	verif.Assert(uerr != nil, "an unsupported block flagged for removal is removed")
+	if algo == "binary_spray" {
+		sb, serr := sent.ExtensionBlock(bpv7.ExtBlockTypeBinarySprayBlock)
+		verif.Assert(serr == nil && sb.Value.(*bpv7.BinarySprayBlock).RemainingCopies() == 4, "binary spray hands over half of the copies it received (block owned by the routing algorithm)")
+	}
 	verif.Reach("end")
+}
+
+// copiesOf: the transmissions of bundle b among the logged ones.
+func copiesOf(log []sendRec, b bpv7.Bundle) (out []sendRec) {
+	for _, r := range log {
+		if r.b.ID().Scrub() == b.ID().Scrub() {
+			out = append(out, r)
+		}
+	}
+	return
 }
 
 func payloadBytes(b bpv7.Bundle) []byte {
@@ -290,5 +323,63 @@ func H15_Core() {
 	for pos := range want {
 		verif.Assert(got[pos] >= 1, "every requested report about an event that happened is emitted")
 	}
+	verif.Reach("end")
+}
+
+// H07_Ping: the ping agent behind a real Core: a bundle for the ping endpoint arrives from peer 1 - with a report-to
+// endpoint of each kind (dtn, ipn, dtn:none, the sender itself), with or without a hop count block (any limit), with
+// any lifetime of up to a day: it is handed to the ping agent and not forwarded; exactly one answer is generated per
+// accepted ping; the answer is a well-formed bundle (it passes the parser inside the convergence layer), comes from the
+// ping endpoint, is addressed to the ping's report-to endpoint and carries the ping's lifetime and hop limit (with the
+// limit 0 it therefore never leaves the node). A second copy of the same ping is answered again iff the node accepts it
+// again, which depends on whether the first one has left the store - not part of the oracle.
+func H07_Ping() {
+	var log []sendRec
+	c, peers := coreWithPeers("epidemic", 0, 2, &log)
+	defer c.Close()
+	p1 := peers[0]
+	ping := agent.NewPing(bpv7.MustNewEndpointID("dtn://this/ping"))
+	c.RegisterApplicationAgent(ping)
+	settle()
+	rts := []string{"dtn://origin/app", "ipn:23.42", "dtn:none", "dtn://peer1/"}
+	rt := rts[verif.Choose("reportto", len(rts))]
+	life := verif.U64("lifetime")
+	verif.Assume(life >= 1000 && life <= 86400000)
+	bl := bpv7.Builder().Source("dtn://origin/app").Destination("dtn://this/ping").ReportTo(rt).CreationTimestampNow().Lifetime(life).
+		PayloadBlock([]byte("ping")).PreviousNodeBlock(p1.peer)
+	withHop := verif.Bool("hop")
+	limit := verif.U8("limit")
+	if withHop {
+		bl = bl.Canonical(&bpv7.HopCountBlock{Limit: limit, Count: 0})
+	}
+	b, err := bl.Build()
+	verif.Assume(err == nil)
+	inject(p1, b)
+	pongs := 0
+	for _, r := range log {
+		verif.Assert(!bytes.Equal(payloadBytes(r.b), []byte("ping")), "a bundle for a local endpoint is not transmitted to peers")
+		if bytes.Equal(payloadBytes(r.b), []byte("pong")) && r.peer == peers[1].addr {
+			pongs++
+			verif.Assert(r.b.PrimaryBlock.SourceNode == bpv7.MustNewEndpointID("dtn://this/ping"), "the answer comes from the ping endpoint")
+			verif.Assert(r.b.PrimaryBlock.Destination == b.PrimaryBlock.ReportTo, "the answer is addressed to the ping's report-to endpoint")
+			verif.Assert(r.b.PrimaryBlock.Lifetime == life, "the answer carries the ping's lifetime")
+			if hb, herr := r.b.ExtensionBlock(bpv7.ExtBlockTypeHopCountBlock); withHop {
+				verif.Assert(herr == nil && hb.Value.(*bpv7.HopCountBlock).Limit == limit, "the answer carries the ping's hop limit")
+			}
+		}
+	}
+	verif.Observe("pongs", pongs, len(log))
+	if rt == "dtn://peer1/" || rt == "dtn:none" {
+		// answers for peer 1 are delivered directly, answers for nobody are not offered to peer 2 necessarily
+		verif.Reach("end")
+		return
+	}
+	if withHop && limit == 0 {
+		// the answer inherits the hop limit 0: its first hop would exceed it, so it must not leave the node (C06)
+		verif.Assert(pongs == 0, "an answer whose inherited hop limit is 0 is not transmitted")
+		verif.Reach("end")
+		return
+	}
+	verif.Assert(pongs == 1, "exactly one answer per accepted ping reaches the other peer")
 	verif.Reach("end")
 }
